@@ -363,6 +363,25 @@ Proof. intros H. apply sq_take_inv in H as (G & E & _ & G'). unfold sq_held. rew
 (* ---------------------------------------------------------------------------------------------------- *)
 (* Part 3: the discipline interface, the order invariant, selection of the least key                      *)
 
+(* what the generic proofs need from a stamping discipline: an invariant [dJ] tying its state to the packets
+   put and not yet noticed as done, under which put/done never raise, and the last stamp per class [dbound],
+   under which stamps never decrease within a class while anything is in the system *)
+Record disc (S : stamper) (st0 : ST S) (conf : pkt -> Prop) (cls : pkt -> Z) : Type := {
+  dJ : ST S -> list pkt -> Prop;
+  dbound : ST S -> Z -> Q;
+  d_conf_size : forall p, conf p -> (0 <= psize p)%Z;
+  d_cls_flow : forall p q, flow p = flow q -> cls p = cls q;
+  d_J_perm : forall st l l', Permutation l l' -> dJ st l -> dJ st l';
+  d_J_init : dJ st0 [];
+  d_J_put_ok : forall nw st l p, dJ st l -> conf p -> st_put S nw st p <> None;
+  d_J_put : forall nw st l p st' F, dJ st l -> conf p -> st_put S nw st p = Some (st', F) ->
+      dJ st' (p :: l) /\ dbound st' (cls p) == F /\
+      (l = [] \/ (dbound st (cls p) <= F /\ forall c, c <> cls p -> dbound st' c == dbound st c));
+  d_J_done_ok : forall nw st l p, dJ st (p :: l) -> st_done S nw st p <> None;
+  d_J_done : forall nw st l p st', dJ st (p :: l) -> st_done S nw st p = Some st' ->
+      dJ st' l /\ (l = [] \/ forall c, dbound st' c == dbound st c)
+}.
+
 Section GenB.
   Variable S : stamper.
   Variable rate : Q.
@@ -370,23 +389,32 @@ Section GenB.
   Variable st0 : ST S.
   Variable conf : pkt -> Prop.
   Variable cls : pkt -> Z.                          (* the class of a packet (flow2class of its flow) *)
-  Variable J : ST S -> list pkt -> Prop.            (* discipline state vs. the packets put and not yet done *)
-  Variable bound : ST S -> Z -> Q.                  (* last stamp given to a class *)
+  Variable D : disc S st0 conf cls.
   Notation srvS := (srv S).
   Notation actS := (act S rate).
   Notation reachS := (reach S rate st0 conf).
 
-  Hypothesis conf_size : forall p, conf p -> (0 <= psize p)%Z.
-  Hypothesis cls_flow : forall p q, flow p = flow q -> cls p = cls q.
-  Hypothesis J_perm : forall st l l', Permutation l l' -> J st l -> J st l'.
-  Hypothesis J_init : J st0 [].
-  Hypothesis J_put_ok : forall nw st l p, J st l -> conf p -> st_put S nw st p <> None.
-  Hypothesis J_put : forall nw st l p st' F, J st l -> st_put S nw st p = Some (st', F) ->
+  Definition J : ST S -> list pkt -> Prop := dJ S st0 conf cls D.
+  Definition bound : ST S -> Z -> Q := dbound S st0 conf cls D.
+  Lemma conf_size : forall p, conf p -> (0 <= psize p)%Z.
+  Proof. exact (d_conf_size _ _ _ _ D). Qed.
+  Lemma cls_flow : forall p q, flow p = flow q -> cls p = cls q.
+  Proof. exact (d_cls_flow _ _ _ _ D). Qed.
+  Lemma J_perm : forall st l l', Permutation l l' -> J st l -> J st l'.
+  Proof. exact (d_J_perm _ _ _ _ D). Qed.
+  Lemma J_init : J st0 [].
+  Proof. exact (d_J_init _ _ _ _ D). Qed.
+  Lemma J_put_ok : forall nw st l p, J st l -> conf p -> st_put S nw st p <> None.
+  Proof. exact (d_J_put_ok _ _ _ _ D). Qed.
+  Lemma J_put : forall nw st l p st' F, J st l -> conf p -> st_put S nw st p = Some (st', F) ->
       J st' (p :: l) /\ bound st' (cls p) == F /\
       (l = [] \/ (bound st (cls p) <= F /\ forall c, c <> cls p -> bound st' c == bound st c)).
-  Hypothesis J_done_ok : forall nw st l p, J st (p :: l) -> st_done S nw st p <> None.
-  Hypothesis J_done : forall nw st l p st', J st (p :: l) -> st_done S nw st p = Some st' ->
+  Proof. exact (d_J_put _ _ _ _ D). Qed.
+  Lemma J_done_ok : forall nw st l p, J st (p :: l) -> st_done S nw st p <> None.
+  Proof. exact (d_J_done_ok _ _ _ _ D). Qed.
+  Lemma J_done : forall nw st l p st', J st (p :: l) -> st_done S nw st p = Some st' ->
       J st' l /\ (l = [] \/ forall c, bound st' c == bound st c).
+  Proof. exact (d_J_done _ _ _ _ D). Qed.
 
   (* e was put before y: smaller arrival counter, not later, and within a class not a larger stamp *)
   Definition before (e y : entry) : Prop :=
@@ -560,7 +588,7 @@ Section GenB.
     - (* FPut *)
       destruct SH as (_ & SI & _). rewrite SI.
       match goal with E : st_put _ _ _ _ = Some _ |- _ => rename E into P end.
-      destruct (J_put _ _ _ _ _ _ HJ P) as (J' & Bq & Hrest).
+      destruct (J_put _ _ _ _ _ _ HJ (Hconf p eq_refl) P) as (J' & Bq & Hrest).
       assert (Qr : Qred q == q) by apply Qred_correct.
       split; [eapply J_perm; [|exact J']; apply Permutation_cons_append|].
       split; [apply Forall_app; split; [exact HC|constructor; [apply Hconf; reflexivity|constructor]]|].
@@ -606,13 +634,13 @@ Section GenB.
       destruct SH as (p' & dl' & _ & _ & _ & SI). rewrite SI. split; [exact HJ|]. split; [exact HC|]. split; [exact HO|exact HB].
     - (* FChildEnd *)
       destruct SH as (p' & Ec & SI & _ & _).
-      match goal with E : st_done _ _ _ _ = Some _ |- _ => rename E into D end.
+      match goal with E : st_done _ _ _ _ = Some _ |- _ => rename E into Dn end.
       injection Ec as <-.
-      match type of D with st_done _ _ _ ?pp = _ => set (p := pp) in * end.
+      match type of Dn with st_done _ _ _ ?pp = _ => set (p := pp) in * end.
       assert (J1 : J (stm s) (p :: map epkt (sq_held s1))).
       { eapply J_perm; [exact SI|exact HJ]. }
       unfold insys. cbn [now started store stm seq qcount qbytes nrecv chl child_all app].
-      destruct (J_done _ _ _ _ _ J1 D) as (J' & Hb).
+      destruct (J_done _ _ _ _ _ J1 Dn) as (J' & Hb).
       match goal with E : sq_get _ _ = Some _ |- _ => pose proof (pq_get_held _ _ E) as PH; apply pq_get_sub in E as (Sub & Ord) end.
       split; [exact J'|].
       split.
@@ -722,7 +750,7 @@ Section GenB.
   Theorem srv_work_conserving s :
     reachS s -> urgent s = false -> (exists p dl, chl s = CTx p dl /\ now s < dl) \/ held S s = [].
   Proof.
-    intros R U. destruct (Inv_reach _ R) as ((N & I0 & I1 & D) & _).
+    intros R U. destruct (Inv_reach _ R) as ((N & I0 & I1 & Dl) & _).
     unfold urgent in U. apply orb_false_iff in U as (U & Ut). apply orb_false_iff in U as (U & Uc).
     apply orb_false_iff in U as (Us & Uq). apply negb_false_iff in Us.
     destruct (I1 Us) as (A & B). unfold held. unfold child_urgent in Uc. unfold timer_due in Ut.
@@ -734,7 +762,7 @@ Section GenB.
         - exfalso. apply (NG y). reflexivity. }
       rewrite (sq_waiting_quiet_held _ _ Uq N W). reflexivity.
     - left. exists e, dl. split; [reflexivity|].
-      specialize (D e dl eq_refl). destruct (Qlt_le_dec (now s) dl) as [L|L]; [exact L|].
+      specialize (Dl e dl eq_refl). destruct (Qlt_le_dec (now s) dl) as [L|L]; [exact L|].
       exfalso. assert (E : dl == now s) by lra. apply Qeq_bool_iff in E. congruence.
   Qed.
 
